@@ -43,8 +43,8 @@ SCENARIOS = {
         "counts": ["C05"],
     },
     "C06": {
-        "modules": ["C06", "C06Build"],
-        "theorems": ["C06_build_clears_marks", "C06_open_char", "C06_needBuild_char", "C06_marks", "C06_noop", "C06_clear", "C06_frame",
+        "modules": ["C06", "C06Build", "C06History"],
+        "theorems": ["C06_history", "C06_history_open", "C06_opens_right_after_build", "C06_noop_history", "C06_status_agrees", "C06_build_clears_marks", "C06_open_char", "C06_needBuild_char", "C06_marks", "C06_noop", "C06_clear", "C06_frame",
                      "C06_names_distinct", "C06_wrong_metric"],
         "quick": [hist("c06", 150, extra=T1)],
         "thorough": [hist("c06", 1500, "thorough", extra=T1), hist("c06", 200, "thorough")],
@@ -78,9 +78,9 @@ SCENARIOS = {
         "modules": ["C08", "Reachable"],
         "theorems": ["C08_built_reachable", "C08_versions_reachable", "C08_snapshot", "C08_reader_sees_committed", "C08_abort", "C08_commit"],
         "quick": [{"name": "threads", "args": ["threads", "--seed", "{seed}"]},
-                  {"name": "faults:sweep", "args": ["faults", "--seed", "{seed}", "--part", "sweep"]}],
+                  {"name": "faults:sweep", "args": ["faults", "--seed", "{seed}", "--part", "sweep"]}, hist("c06", 25, extra=T1)],
         "thorough": [{"name": "threads", "args": ["threads", "--seed", "{seed}", "--tier", "thorough"], "timeout": 3000}],
-        "counts": ["C08", "C01", "C02", "C10"],
+        "counts": ["C08", "C01", "C02", "C10", "C06"],
         "assumptions": ["MVCC and the single-writer lock are LMDB's; thread interleavings are sampled (barrier-controlled and free-running), not proved"],
     },
     "C09": {
@@ -102,8 +102,8 @@ SCENARIOS = {
         "assumptions": ["the no-temp-file / no-descriptor clause rests on Rust's Drop; it is observed on the real process (fdcheck), not proved"],
     },
     "C11": {
-        "modules": ["C11", "C11Real"],
-        "theorems": ["C11_f32_std_model_on", "C11_round_f32_dot_product", "C11_round_f32_euclidean_distance", "C11_round_f32_manhattan_distance",
+        "modules": ["C11", "C11Real", "C11Reported"],
+        "theorems": ["C11_round_f32_reported_euclidean", "C11_round_f32_cosine", "C11_round_f32_cosine_chk", "C11_cosine_zero_norm", "C11_cosine_range_real", "C11_f32_std_model_on", "C11_round_f32_dot_product", "C11_round_f32_euclidean_distance", "C11_round_f32_manhattan_distance",
                      "C11_mul_std", "C11_add_std", "C11_fma_std", "C11_div_std", "C11_sqrt_std", "C11_cover_dot_scalar", "C11_cover_dot_sse", "C11_cover_dot_avx", "C11_cover_euclid_scalar", "C11_cover_euclid_sse",
                      "C11_cover_euclid_avx", "C11_dispatch", "C11_symm", "C11_self_zero_euclid", "C11_self_zero_manhattan",
                      "C11_cosine_range", "C11_round", "C11_round_simd"],
@@ -146,7 +146,7 @@ SCENARIOS = {
         "modules": ["C14", "C14Fair", "C14FairBuild", "Unconditional", "Reachable"],
         "theorems": ["C14_fair_round_decreases", "C14_round_above_cap_decreases", "C14_round_measure", "C14_terminates_above_cap", "C14_fair_terminates", "C14_fuel_needs_small_batch", "C14_fuel_needs_unfair_round", "C14_build_terminates_above_cap", "C14_build_terminates_fair", "C14_any_memory_forest", "C14_any_memory", "C14_insert_terminates", "C14_makeT_fuel", "C14_resplit_makes_node", "C14_livelock_before_fix",
                      "C14_build_fuel_forest", "C14_reify_total", "C14_deleteTree_total"],
-        "quick": [hist("c14", 60, extra=T1, timeout=900), hist("c14inc", 12, extra=T1, timeout=900)],
+        "quick": [hist("c14", 125, extra=T1, timeout=900), hist("c14inc", 12, extra=T1, timeout=900)],   # 125 = the whole grid items x split_after x memory
         "thorough": [hist("c14", 600, "thorough", extra=T1, timeout=3400), hist("c14", 100, "thorough", timeout=3400),
                      hist("c14inc", 120, "thorough", extra=T1, timeout=3400)],
         "counts": ["C14", "C01", "C02"],
@@ -161,7 +161,8 @@ SCENARIOS = {
         "counts": ["C15"],
     },
     "C17": {
-        "theorems": ["C17_up_down", "C17_up_down_eq", "C17_stamp", "C17_remap_inverse", "C17_updated_marks", "C17_up_down_open",
+        "modules": ["C17", "C17Reachable"],
+        "theorems": ["C17_upgrade_reachable", "C17_reachable_wellFormed", "C17_reachable_wellFormed_iff", "C17_up_down", "C17_up_down_eq", "C17_stamp", "C17_remap_inverse", "C17_updated_marks", "C17_up_down_open",
                      "C17_cannot_decode_key"],
         "quick": [{"name": "upgrade", "args": ["upgrade", "--seed", "{seed}"]}],
         "thorough": [{"name": "upgrade", "args": ["upgrade", "--seed", "{seed}", "--tier", "thorough"], "timeout": 3000}],
